@@ -1,11 +1,21 @@
 """C01 — stream data is delivered reliably, in order, exactly once.
-specs: Stream.tla (contract monitor), MC_Stream (design + liveness), Gen_Stream (environment schedules), Trace_Stream."""
-from checks import streams
+specs: Stream.tla (contract monitor), MC_Stream (design + liveness), Gen_Stream / Gen_StreamCover / Gen_StreamInject (environment
+schedules), Trace_Stream; thorough tier additionally StreamSched.tla (the output scheduler C01's liveness clause depends on)."""
+from checks import streams, ext_sched
+
+BINS = ["vh"] + ext_sched.BINS
 
 
 def run(tier, rep):
     streams.run("C01", tier, rep)
+    if tier != "quick":
+        # no starvation among streams: the scheduler part (quick: ./check X1)
+        ext_sched.run_part("C01", tier, rep)
 
 
 def replay(path):
+    import json
+    v = json.load(open(path))
+    if "/StreamSched/" in v.get("signature", ""):
+        return ext_sched.replay("C01", path)
     return streams.replay("C01", path)
